@@ -181,7 +181,8 @@ def select(tier, seed, want=None, extra_tags=()):
     if want is not None:
         F = [x for x in F if want(x)]
     if tier == "thorough":
-        return F
+        # schemas pinned to a known defect or needing their own oracle are used only by the checks that list them
+        return [x for x in F if "bytesdefault" not in x[1] and "logical" not in x[1]]
     rng = random.Random(seed)
     must = {}
     for x in F:
